@@ -315,9 +315,9 @@ psf_calc_signal_max (SF_PRIVATE *psf, int normalize)
 
 	/* Brute force. Read the whole file and find the biggest sample. */
 	/* Get current position in file */
-	position = sf_seek ((SNDFILE*) psf, 0, SEEK_CUR) ;
+	position = sf_seek ((SNDFILE*) psf, 0, SEEK_CUR | SFM_READ) ;
 	/* Go to start of file. */
-	sf_seek ((SNDFILE*) psf, 0, SEEK_SET) ;
+	sf_seek ((SNDFILE*) psf, 0, SEEK_SET | SFM_READ) ;
 
 	data = ubuf.dbuf ;
 	/* Make sure len is an integer multiple of the channel count. */
@@ -332,7 +332,7 @@ psf_calc_signal_max (SF_PRIVATE *psf, int normalize)
 		} ;
 
 	/* Return to SNDFILE to original state. */
-	sf_seek ((SNDFILE*) psf, position, SEEK_SET) ;
+	sf_seek ((SNDFILE*) psf, position, SEEK_SET | SFM_READ) ;
 	sf_command ((SNDFILE*) psf, SFC_SET_NORM_DOUBLE, NULL, save_state) ;
 
 	return	max_val ;
@@ -359,8 +359,8 @@ psf_calc_max_all_channels (SF_PRIVATE *psf, double *peaks, int normalize)
 	memset (peaks, 0, sizeof (double) * psf->sf.channels) ;
 
 	/* Brute force. Read the whole file and find the biggest sample for each channel. */
-	position = sf_seek ((SNDFILE*) psf, 0, SEEK_CUR) ; /* Get current position in file */
-	sf_seek ((SNDFILE*) psf, 0, SEEK_SET) ;			/* Go to start of file. */
+	position = sf_seek ((SNDFILE*) psf, 0, SEEK_CUR | SFM_READ) ; /* Get current position in file */
+	sf_seek ((SNDFILE*) psf, 0, SEEK_SET | SFM_READ) ;			/* Go to start of file. */
 
 	len = ARRAY_LEN (ubuf.dbuf) - (ARRAY_LEN (ubuf.dbuf) % psf->sf.channels) ;
 
@@ -377,7 +377,7 @@ psf_calc_max_all_channels (SF_PRIVATE *psf, double *peaks, int normalize)
 			} ;
 		} ;
 
-	sf_seek ((SNDFILE*) psf, position, SEEK_SET) ;		/* Return to original position. */
+	sf_seek ((SNDFILE*) psf, position, SEEK_SET | SFM_READ) ;		/* Return to original position. */
 
 	sf_command ((SNDFILE*) psf, SFC_SET_NORM_DOUBLE, NULL, save_state) ;
 
